@@ -143,8 +143,8 @@ def _sd(sd, tag):
 
 def counterexample(out):
     """The schedule <<proc, call>> of a TLC counterexample (from the `last` variable)."""
-    steps = re.findall(r'/\\ last = <<"([^"]*)", "([^"]*)">>', out)
-    return ["%s:%s" % (p, c) for p, c in steps if p]
+    steps = re.findall(r'/\\ last = <<"([^"]*)", "([^"]*)", "([^"]*)">>', out)
+    return ["%s:%s%s" % (p, c, ("=" + a) if a else "") for p, c, a in steps if p]
 
 
 def run_design(sd, s):
@@ -503,3 +503,74 @@ def rotation_calls_match(dry_runs):
             calls = [c for c in r["calls"] if c.startswith("db:")]
             res[r["scenario"]] = {"calls": calls, "matches_model": calls == ROTATE_CALLS}
     return res
+
+
+# ---- model-guided schedules: behaviours of MintSteps replayed on the real mint ----
+
+PAYMAP = {"succeeded": "success", "pending": "pending", "failed": "failed", "error": "error"}
+
+
+def model_behaviours(sd, ms, num, depth, seed_):
+    """TLC -simulate on MintSteps for scenario ms: a list of behaviours, each a list of (request, call, Lightning answer)."""
+    d = _sd(sd, "sim_" + ms["name"])
+    with open(os.path.join(d, "MintStepsSim.cfg"), "w") as f:
+        f.write("SPECIFICATION Spec\nCHECK_DEADLOCK FALSE\n")
+    sf = os.path.join(d, "scn.json")
+    with open(sf, "w") as f:
+        json.dump(ms, f)
+    os.makedirs(os.path.join(d, "sim"), exist_ok=True)
+    rc, out, dt = tlc(d, "MintSteps.tla", "MintStepsSim.cfg", ["-simulate", "file=sim/b,num=%d" % num, "-depth", str(depth), "-seed", str(seed_)],
+                      env={"VERIF_SCN": sf}, workers=1, timeout=600, xmx="2g")
+    files = sorted(os.listdir(os.path.join(d, "sim")))
+    if not files:
+        shutil.rmtree(d, ignore_errors=True)
+        raise Infra("TLC simulation of MintSteps produced no behaviour:\n%s" % out[-2000:])
+    res = []
+    for fn in files:
+        with open(os.path.join(d, "sim", fn)) as f:
+            txt = f.read()
+        b = [(p, c, a) for p, c, a in re.findall(r'/\\ last = <<"([^"]*)", "([^"]*)", "([^"]*)">>', txt) if p and p != "env" and c != "return"]
+        if b:
+            res.append(b)
+    shutil.rmtree(d, ignore_errors=True)
+    return res
+
+
+def guided_scenarios(sd, templates, num, seed_):
+    """For every template (an explorer scenario whose concurrent requests MintSteps models): behaviours of MintSteps, each turned into
+    one explorer scenario with that schedule fixed (lenient) and the Lightning answers of the behaviour scripted."""
+    out, stats = [], {}
+    for es in templates:
+        ms = to_steps_scenario(es)
+        if ms is None:
+            raise Infra("template %s is not modelled by MintSteps" % es["name"])
+        ms["ln"] = "truth"
+        seen = set()
+        kinds = {p["id"]: p for p in ms["procs"]}
+        for b in model_behaviours(sd, ms, num, 120, seed_):
+            key = tuple(b)
+            if key in seen:
+                continue
+            seen.add(key)
+            e = json.loads(json.dumps(es))
+            e["name"] = "%s#%d" % (es["name"], len(seen))
+            e["schedules"] = [[p for p, _, _ in b]]
+            e["lenient"] = True
+            e["model_schedule"] = ["%s:%s" % (p, c) for p, c, _ in b]
+            started = []
+            for p, c, _ in b:
+                if c.startswith("start:") or c == "env:notify":
+                    started.append(p)
+            quotes = sorted({kinds[p]["q"] for p, c, a in b if c.startswith("ln:") and kinds[p]["kind"] in ("melt", "pollmelt")})
+            for q in quotes:
+                pays = [PAYMAP[a] for p, c, a in b if c == "ln:SendPayment" and kinds[p]["q"] == q]
+                stats_ = [a for p, c, a in b if c == "ln:OutgoingPaymentStatus" and kinds[p]["q"] == q and kinds[p]["kind"] in ("melt", "pollmelt")]
+                first_any = [p for p in started if kinds[p]["q"] == q and kinds[p]["kind"] in ("melt", "pollmelt")]
+                first_melt = [p for p in started if kinds[p]["q"] == q and kinds[p]["kind"] == "melt"]
+                if pays and first_melt:
+                    e["conc"][int(first_melt[0][1:]) - 1]["pay"] = pays
+                if stats_ and first_any:
+                    e["conc"][int(first_any[0][1:]) - 1]["status"] = stats_
+            out.append(e)
+        stats[es["name"]] = {"behaviours": num, "distinct": len(seen)}
+    return out, stats
